@@ -359,6 +359,11 @@ class Scheduler:
             self.task_states[tid] = LocalStatus.KILLED
         except TaskFailedError:
             self.task_states[tid] = LocalStatus.FAILED
+        except Exception:
+            logger.exception("Task %s failed unexpectedly", name)
+            if proc is not None and proc.returncode is None:
+                await self._gentle_kill(proc)
+            self.task_states[tid] = LocalStatus.FAILED
         else:
             self.task_states[tid] = LocalStatus.COMPLETED
         finally:
